@@ -65,8 +65,12 @@ UUID = ".3c3d1ca8-6e11-4a1c-9a0e-4c0f7f3e2f11"     # file names on the archive c
 def do_step(step, root):
     root = Path(root)
     U = step.get("_u", "")
-    binf = root / f"{STEM}.ap{U}.bin"
-    cbin = root / f"{STEM}.ap{U}.cbin"
+    stem = step.get("_stem") or STEM
+    if step.get("_rel"):
+        os.chdir(root)          # the caller works from inside the recording's folder with relative paths
+        root = Path(".")
+    binf = root / f"{stem}.ap{U}.bin"
+    cbin = root / f"{stem}.ap{U}.cbin"
     op = step["op"]
     ckw = {}
     if step.get("via") == "kwargs":
@@ -149,7 +153,10 @@ def _gen_world(r, tier):
     # content) with the same stem sits in the same folder: companion lookup must not pick the sibling's files
     uuid_layout = r.random() < 0.15
     return {"fixture": fixture, "nap": nap, "ns": ns, "data_seed": r.randrange(1 << 30), "meta_form": meta_form,
-            "uuid_layout": uuid_layout}
+            "uuid_layout": uuid_layout, "extremes": r.random() < 0.3,
+            # file-name patterns: a space, an extra dot, upper case in the stem; the caller may work with relative paths from inside the folder
+            "stem": r.choice([None] * 6 + ["my rec_g0_t0.imec0", "rec.v2_g0_t0.imec0", "REC-01_g0_t0.imec0"]),
+            "relative_paths": r.random() < 0.15}
 
 
 def _gen_knobs(r):
@@ -278,26 +285,27 @@ class World:
         self.nc = w["nap"] + 1
         self.fs = world.meta_fs(w["fixture"])
         self.ns = w["ns"]           # current length (the operator may replace the recording by one of another length)
-        self.O = world.make_data(w["data_seed"], w["ns"], w["nap"])
+        self.O = world.make_data(w["data_seed"], w["ns"], w["nap"], extremes=bool(w.get("extremes")))
         self.Obytes = self.O.tobytes()
         sf = "none" if w.get("meta_form") == "none" else "complete"
         self.U = UUID if w.get("uuid_layout") else ""
-        world.write_recording(self.root, STEM, w["fixture"], self.O, size_fields=sf)
+        self.stem = w.get("stem") or STEM          # file-name pattern of the recording (the oracle's pristine copy keeps the plain one)
+        world.write_recording(self.root, self.stem, w["fixture"], self.O, size_fields=sf)
         world.write_recording(self.oracle, STEM, w["fixture"], self.O, size_fields=sf)
         if self.U:
             for ext in ("bin", "meta"):
-                (self.root / f"{STEM}.ap.{ext}").rename(self.root / f"{STEM}.ap{self.U}.{ext}")
+                (self.root / f"{self.stem}.ap.{ext}").rename(self.root / f"{self.stem}.ap{self.U}.{ext}")
             # the sibling: shorter recording, complete .bin/.meta/.cbin/.ch set under the UUID-less names
             D = world.make_data(w["data_seed"] ^ 0x5151, max(200, w["ns"] // 3), w["nap"])
-            world.write_recording(self.root, STEM, w["fixture"], D)
-            sd = spikeglx.Reader(self.root / f"{STEM}.ap.bin")
+            world.write_recording(self.root, self.stem, w["fixture"], D)
+            sd = spikeglx.Reader(self.root / f"{self.stem}.ap.bin")
             sd.compress_file(keep_original=True, chunk_duration=0.05, n_threads=1)
             sd.close()
-        self.bin = self.root / f"{STEM}.ap{self.U}.bin"
-        self.cbin = self.root / f"{STEM}.ap{self.U}.cbin"
-        self.ch = self.root / f"{STEM}.ap{self.U}.ch"
-        self.meta = self.root / f"{STEM}.ap{self.U}.meta"
-        self.decoys = {p: sha1_file(p) for p in (self.root / f"{STEM}.ap.{e}" for e in ("bin", "meta", "cbin", "ch"))} if self.U else {}
+        self.bin = self.root / f"{self.stem}.ap{self.U}.bin"
+        self.cbin = self.root / f"{self.stem}.ap{self.U}.cbin"
+        self.ch = self.root / f"{self.stem}.ap{self.U}.ch"
+        self.meta = self.root / f"{self.stem}.ap{self.U}.meta"
+        self.decoys = {p: sha1_file(p) for p in (self.root / f"{self.stem}.ap.{e}" for e in ("bin", "meta", "cbin", "ch"))} if self.U else {}
         self.meta_sha = sha1_file(self.meta)
         self.knobs = dict(knobs)
 
@@ -307,7 +315,7 @@ class World:
         backup do: a file's age says nothing about its content."""
         if new_ns:
             self.ns = int(new_ns)
-        self.O = world.make_data(data_seed, self.ns, self.w["nap"])
+        self.O = world.make_data(data_seed, self.ns, self.w["nap"], extremes=bool(self.w.get("extremes")))
         self.Obytes = self.O.tobytes()
         old = self.bin.stat()
         self.bin.write_bytes(self.Obytes)
@@ -450,6 +458,8 @@ def _exec_step(W, st, model, log, stats, bump, seed, progress=False):
     fault = st.get("fault")
     pool_seed = seed % 1000
     st["_u"] = W.U
+    st["_stem"] = W.stem
+    st["_rel"] = bool(W.w.get("relative_paths"))
     if fault and fault.get("auto"):
         dr = session.dry_run(W.root, do_step, st, W.cfg, pool_seed, read_events=True)
         fr = rng_of(fault["rseed"])
